@@ -94,6 +94,15 @@ CHECKS["C16"] = dict(
     note=E2NOTE,
 )
 
+CHECKS["C13"] = dict(
+    engine=E2, category="model_checking", design="§3 C13",
+    technique="symbolic execution of loads + each read-only operation (dumps, template call, to_DiGraph, attribute reads) with before/after snapshots as z3 terms; z3 decides snapshot inequality per path; concrete identity/mutation walk for instance independence",
+    text="One inductive step per operation on a family of program skeletons with symbolic values: content snapshot (structure, key sets, z3 terms) and dumps() text "
+         "before and after are compared on every path; match_template cases and the independence walk (mutable-container identity sets of template and instances, "
+         "mutation of every container of one instance) are concrete-structure runs and reported as such.",
+    note=E2NOTE,
+)
+
 NOT_YET = "check not built yet in this round (see DESIGN.md §3 for the plan); not claimed"
 
 
